@@ -354,12 +354,23 @@ func (s *store) Close() error {
 	return nil
 }
 
-// Grabs lock then flushes.
+// Grabs lock then flushes. The underlying store is flushed too: it may queue operations itself
+// (for instance another batching wrapper), and Flush must force every queued operation to execute.
 func (s *store) Flush() error {
 	s.Lock()
 	defer s.Unlock()
 
-	return s.flush()
+	err := s.flush()
+	if err != nil {
+		return err
+	}
+
+	err = s.underlyingStore.Flush()
+	if err != nil {
+		return fmt.Errorf("failed to flush underlying store: %w", err)
+	}
+
+	return nil
 }
 
 // Just flushes.
